@@ -8,10 +8,13 @@ import (
 	"sort"
 	"strings"
 
+	"golang.org/x/tools/go/cfg"
 	"golang.org/x/tools/go/ssa"
 
 	"regexlint/internal/core"
 )
+
+type cfgBlock = cfg.Block
 
 // ---------------------------------------------------------------------------
 // C16 / C20: character classes
@@ -453,3 +456,161 @@ func RCatTable(c *core.Ctx) {
 		c.Anchor("success returns of canonicalUnicodeCatName")
 	}
 }
+
+// ---------------------------------------------------------------------------
+// R-SUBFIRST: no early exit before the subtraction is dealt with.
+//
+// A CharSet function that handles the subtraction somewhere (tests c.sub,
+// recurses into it, serialises it) must do so on every path: a return that
+// can be reached without having looked at c.sub answers / transforms /
+// serialises base-only for a class that has a subtraction.  (Returns guarded
+// by a nil receiver, and returns whose own expression mentions c.sub, are
+// fine.)
+// ---------------------------------------------------------------------------
+
+func RSubFirst(c *core.Ctx) {
+	c.Rule("R-SUBFIRST", "in every function of package syntax that takes a CharSet X and propagates to its subtraction (calls a method on X.sub or passes X.sub on: membership, copying, serialisation, case folding, bitmap preparation), every exit — each return and the end of the body — is reached only after X.sub has been looked at (or under X == nil): an early exit on the base class alone (`if c.anything { return }`) skips the subtraction", 8)
+	p := c.P
+	syn := p.Pkg("syntax")
+	info := syn.TypesInfo
+	sub := p.LookupField("syntax", "CharSet", "sub")
+	if sub == nil {
+		c.Anchor("syntax.CharSet.sub")
+		return
+	}
+	isCharSet := func(t types.Type) bool {
+		if pt, ok := t.(*types.Pointer); ok {
+			t = pt.Elem()
+		}
+		return core.IsNamed(t, syn.Types.Path(), "CharSet")
+	}
+	n := 0
+	for _, fd := range p.FuncDecls(syn) {
+		if fd.Body == nil || p.IsTestFile(fd.Pos()) {
+			continue
+		}
+		// candidate set variables: receiver and parameters of CharSet type
+		var vars []types.Object
+		collect := func(fl *ast.FieldList) {
+			if fl == nil {
+				return
+			}
+			for _, f := range fl.List {
+				for _, nm := range f.Names {
+					if obj := info.Defs[nm]; obj != nil && isCharSet(obj.Type()) {
+						vars = append(vars, obj)
+					}
+				}
+			}
+		}
+		collect(fd.Recv)
+		collect(fd.Type.Params)
+		name := core.DeclName(syn, fd)
+		for _, v := range vars {
+			mentions := func(nd ast.Node) bool {
+				found := false
+				ast.Inspect(nd, func(x ast.Node) bool {
+					if se, ok := x.(*ast.SelectorExpr); ok && info.ObjectOf(se.Sel) == sub {
+						if id, ok := ast.Unparen(se.X).(*ast.Ident); ok && info.ObjectOf(id) == v {
+							found = true
+						}
+					}
+					// delegation: a call that passes the set on (method call on v or v as argument)
+					if call, ok := x.(*ast.CallExpr); ok {
+						if se, ok := call.Fun.(*ast.SelectorExpr); ok {
+							if id, ok := ast.Unparen(se.X).(*ast.Ident); ok && info.ObjectOf(id) == v {
+								if cal := core.Callee(info, call); cal != nil && subAware[cal.Name()] {
+									found = true
+								}
+							}
+						}
+					}
+					return !found
+				})
+				return found
+			}
+			if !mentions(fd.Body) {
+				continue
+			}
+			// the function PROPAGATES to the subtraction: it calls a method on X.sub or passes X.sub on
+			// (functions that merely test X.sub == nil to give a conservative answer are not concerned)
+			direct := false
+			isSubOfV := func(e ast.Expr) bool {
+				e = ast.Unparen(e)
+				if st, ok := e.(*ast.StarExpr); ok {
+					e = ast.Unparen(st.X)
+				}
+				se, ok := e.(*ast.SelectorExpr)
+				if !ok || info.ObjectOf(se.Sel) != sub {
+					return false
+				}
+				id, ok := ast.Unparen(se.X).(*ast.Ident)
+				return ok && info.ObjectOf(id) == v
+			}
+			ast.Inspect(fd.Body, func(x ast.Node) bool {
+				if call, ok := x.(*ast.CallExpr); ok {
+					if se, ok := call.Fun.(*ast.SelectorExpr); ok && isSubOfV(se.X) {
+						direct = true
+					}
+					for _, a := range call.Args {
+						if isSubOfV(a) {
+							direct = true
+						}
+					}
+				}
+				return !direct
+			})
+			if !direct {
+				continue
+			}
+			g := core.NewGraph(info, fd.Body)
+			nilGuard := func(nd ast.Node) bool {
+				// `v == nil` test (its true branch is the only way to a nil-receiver return)
+				found := false
+				ast.Inspect(nd, func(x ast.Node) bool {
+					if be, ok := x.(*ast.BinaryExpr); ok && (be.Op == token.EQL || be.Op == token.NEQ) {
+						if id, ok := ast.Unparen(be.X).(*ast.Ident); ok && info.ObjectOf(id) == v {
+							if tv, ok := info.Types[be.Y]; ok && tv.IsNil() {
+								found = true
+							}
+						}
+					}
+					return !found
+				})
+				return found
+			}
+			pred := func(nd ast.Node) bool { return mentions(nd) || nilGuard(nd) }
+			cnt := 0
+			checkExit := func(b *cfgBlock, i int, pos token.Pos, what string, self ast.Node) {
+				cnt++
+				n++
+				c.Visit(name)
+				ok := (self != nil && mentions(self)) || g.MustPassBefore(b, i, pred)
+				c.Check(ok, fmt.Sprintf("%s / exit #%d (%s) is reached only after %s.sub was looked at", name, cnt, what, v.Name()), pos,
+					"this exit can be reached on a path that never examines %s.sub: for a class with a subtraction the function stops after handling the base class only", v.Name())
+			}
+			for _, b := range g.Blocks {
+				if !g.Reachable(b) {
+					continue
+				}
+				for i, nd := range b.Nodes {
+					if rs, ok := nd.(*ast.ReturnStmt); ok {
+						checkExit(b, i, rs.Pos(), "return", rs)
+					}
+				}
+				// falling off the end of a function without results
+				if len(b.Succs) == 0 && fd.Type.Results == nil {
+					if len(b.Nodes) == 0 || !core.IsReturn(b.Nodes[len(b.Nodes)-1]) {
+						checkExit(b, len(b.Nodes), fd.Body.Rbrace, "end of body", nil)
+					}
+				}
+			}
+		}
+	}
+	if n == 0 {
+		c.Anchor("CharSet functions that mention .sub")
+	}
+}
+
+// methods that themselves take the subtraction into account (delegating to one counts as looking at it)
+var subAware = map[string]bool{"CharIn": true, "charInSlow": true, "HasSubtraction": true, "IsMergeable": true, "Equals": true, "equals": true, "IsSingleton": true, "IsSingletonInverse": true, "Copy": true, "mapHashFill": true, "addCaseEquivalences": true, "String": true, "IsEmpty": true}
